@@ -52,13 +52,23 @@ def classify_use(n):
     return 'other:%s' % type(p).__name__
 
 
-def check(ctx):
+def attr_loop(py, fname):
+    f = py.func('xmlwriter', fname)
+    params = [a.arg for a in f.args.args]
+    loops = [n for n in P.walk_no_nested(f) if isinstance(n, ast.For) and isinstance(n.iter, ast.Name)
+             and n.iter.id in params and isinstance(n.target, ast.Tuple) and len(n.target.elts) == 2
+             and all(isinstance(e, ast.Name) for e in n.target.elts)]
+    if len(loops) != 1:
+        raise AnalysisError('%s: expected one `for attr, value in <attributes param>` loop, found %d' % (fname, len(loops)))
+    return f, loops[0]
+
+
+def escaping_rule(ctx, r1):
+    """taint-style rule shared with C07: values reach the XML text only through the stdlib escaping functions"""
     py = ctx.py
     m = py.mod('xmlwriter')
     rel = m.rel
-
     # ------------------------------------------------------------------ R1 escaping discipline
-    r1 = ctx.rule('R1', 'attribute values only via stdlib quoteattr, text only via stdlib escape, untransformed; single sink', floor=12)
     for fn in ('escape', 'quoteattr'):
         prov = m.imports.get(fn)
         shadow = fn in m.functions or fn in m.assigns or fn in m.classes
@@ -77,18 +87,8 @@ def check(ctx):
         if isinstance(n, ast.Name) and isinstance(n.ctx, ast.Store) and n.id in ('escape', 'quoteattr'):
             r1.fail('provenance of %s' % n.id, rel, n.lineno, '%s is rebound' % n.id)
 
-    def attr_loop(fname):
-        f = py.func('xmlwriter', fname)
-        params = [a.arg for a in f.args.args]
-        loops = [n for n in P.walk_no_nested(f) if isinstance(n, ast.For) and isinstance(n.iter, ast.Name)
-                 and n.iter.id in params and isinstance(n.target, ast.Tuple) and len(n.target.elts) == 2
-                 and all(isinstance(e, ast.Name) for e in n.target.elts)]
-        if len(loops) != 1:
-            raise AnalysisError('%s: expected one `for attr, value in <attributes param>` loop, found %d' % (fname, len(loops)))
-        return f, loops[0]
-
     for fname in ('collect_attributes', '_calc_attrs_length'):
-        f, loop = attr_loop(fname)
+        f, loop = attr_loop(py, fname)
         vname = loop.target.elts[1].id
         # value must not be rebound in the loop
         rebound = [n for n in ast.walk(loop) if isinstance(n, ast.Name) and n.id == vname and isinstance(n.ctx, ast.Store)
@@ -140,10 +140,21 @@ def check(ctx):
              'the XML buffer is written from %s; only XMLWriter.__init__ (declaration) and write_line may' % sorted(sinks),
              detail=sorted('%s:%s' % k for k in sinks))
 
+
+
+def check(ctx):
+    py = ctx.py
+    m = py.mod('xmlwriter')
+    rel = m.rel
+
+    r1 = ctx.rule('R1', 'attribute values only via stdlib quoteattr, text only via stdlib escape, untransformed; single sink', floor=12)
+    escaping_rule(ctx, r1)
+    wl = py.func('xmlwriter', 'XMLWriter.write_line')
+
     # ------------------------------------------------------------------ R2 siblings skip alike
     r2 = ctx.rule('R2', 'width computation and emission skip exactly the None-valued attributes, and use the same quoting', floor=4)
     for fname in ('collect_attributes', '_calc_attrs_length'):
-        f, loop = attr_loop(fname)
+        f, loop = attr_loop(py, fname)
         vname = loop.target.elts[1].id
         first = loop.body[0]
         ok = isinstance(first, ast.If) and P.src(first.test) == '%s is None' % vname and len(first.body) == 1 \
@@ -155,7 +166,7 @@ def check(ctx):
 
     # ------------------------------------------------------------------ R3 wrapping whitespace only
     r3 = ctx.rule('R3', 'only ` name=quoted` and newline+indent are concatenated; tag assembled as prefix+attrs+suffix', floor=6)
-    f, loop = attr_loop('collect_attributes')
+    f, loop = attr_loop(py, 'collect_attributes')
     aname, vname = loop.target.elts[0].id, loop.target.elts[1].id
     acc = None
     pieces = []
